@@ -1,4 +1,12 @@
-use adblock::resources::PermissionMask;
+//! Native replay routines: each re-executes one decoded counterexample against the real build through the
+//! public API (real seahash, real memchr, real regex crate, no stubs) and says whether the real code
+//! violates the kernel's assertion on that input.
+use adblock::blocker::{Blocker, BlockerOptions};
+use adblock::filters::network::{FilterPart, NetworkFilter, NetworkFilterMask, NetworkMatchable};
+use adblock::regex_manager::RegexManager;
+use adblock::request::{Request, RequestType};
+use adblock::resources::{PermissionMask, ResourceStorage};
+use adblock::utils::fast_hash;
 use adblock::Engine;
 use serde_json::{json, Value};
 use std::panic::{catch_unwind, AssertUnwindSafe};
@@ -6,23 +14,98 @@ use std::panic::{catch_unwind, AssertUnwindSafe};
 pub fn bytes(v: &Value) -> Vec<u8> {
     v.as_array().map(|a| a.iter().map(|x| x.as_u64().unwrap_or(0) as u8).collect()).unwrap_or_default()
 }
+pub fn u64s(v: &Value) -> Vec<u64> {
+    v.as_array().map(|a| a.iter().map(|x| x.as_u64().unwrap_or(0)).collect()).unwrap_or_default()
+}
 pub fn u(v: &Value) -> u64 {
     v.as_u64().unwrap_or(0)
+}
+pub fn b(v: &Value) -> bool {
+    v.as_bool().unwrap_or(false)
+}
+fn sub(v: &Value, name: &str, len: &str) -> String {
+    let bs = bytes(&v[name]);
+    let l = (u(&v[len]) as usize).min(bs.len());
+    String::from_utf8_lossy(&bs[..l]).to_string()
 }
 pub fn panic_msg(e: Box<dyn std::any::Any + Send>) -> String {
     e.downcast_ref::<String>().cloned().or_else(|| e.downcast_ref::<&str>().map(|s| s.to_string())).unwrap_or_else(|| "panic".into())
 }
 
+/// An arbitrary rule value. `tag` is crate-private, so a value is obtained from the parser and its public
+/// fields are overwritten.
+fn mk_filter(mask: u32, filter: FilterPart, hostname: Option<String>, tag: Option<&str>) -> NetworkFilter {
+    let line = match tag {
+        Some(t) => format!("a$tag={}", t),
+        None => "a".to_string(),
+    };
+    let mut f = NetworkFilter::parse(&line, false, Default::default()).expect("seed rule parses");
+    f.mask = NetworkFilterMask::from_bits_retain(mask);
+    f.filter = filter;
+    f.hostname = hostname;
+    f.opt_domains = None;
+    f.opt_not_domains = None;
+    f.opt_domains_union = None;
+    f.opt_not_domains_union = None;
+    f.modifier_option = None;
+    f.raw_line = None;
+    f.id = f.get_id();
+    f
+}
+fn mk_request(url: &str, hostname: &str, rt: RequestType, http: bool, https: bool, tp: bool, src: Option<Vec<u64>>) -> Request {
+    let mut r = Request::preparsed(url, hostname, "", "script", tp);
+    r.request_type = rt;
+    r.is_http = http;
+    r.is_https = https;
+    r.is_supported = true;
+    r.is_third_party = tp;
+    r.source_hostname_hashes = src;
+    r
+}
+fn matches(f: &NetworkFilter, r: &Request) -> bool {
+    f.matches(r, &mut RegexManager::default())
+}
+fn blocker_of(fs: Vec<NetworkFilter>, optimize: bool) -> Blocker {
+    Blocker::new(fs, &BlockerOptions { enable_optimizations: optimize })
+}
+
 pub fn dispatch(which: &str, v: &Value, case: &Value) -> Value {
+    let check = case["check"].as_str().unwrap_or("");
     match which {
         "c10_header" => c10_header(v),
+        "c10_rule_a" => c10_rule_a(v),
         "c18_perm" => c18_perm(v),
-        "selftest" => json!({"reproduced": true, "note": "selftest case"}),
+        "c18_sep" => c18_sep(v),
+        "c01_tok" => c01_tok(v),
+        "c01_l1c" => c01_l1c(v),
+        "c01_bin" => c01_bin(v),
+        "c01_flags" => c01_flags(v),
+        "c01_dom" => c01_dom(v),
+        "c01_scheme" => c01_scheme(v),
+        "c02_anchor" => c02_anchor(v),
+        "c02_plain" => c02_plain(v),
+        "c02_host" => c02_host(v),
+        "c03_opts" => c03_opts(v),
+        "c04_id" => c04_id(v, check),
+        "c05_fuse" => c05_fuse(v),
+        "c08_rule" => c08_rule(v, check),
+        "c11_split" => c11_split(v),
+        "c12_scheme" => c12_scheme(v),
+        "c12_types" => c12_types(v),
+        "c12_srchash" => c12_srchash(v),
+        "c16_labels" => c16_labels(v, false),
+        "c16_entity" => c16_labels(v, true),
+        "c16_generic" => c16_generic(v),
+        "selftest" => {
+            let r = u(&v["r"]) as u8;
+            json!({"reproduced": !PermissionMask::from_bits(r).is_injectable_by(PermissionMask::from_bits(0))})
+        }
         _ => json!({"reproduced": false, "error": format!("unknown replay routine {}", which), "case": case["kernel"]}),
     }
 }
 
-/// C10.header: the buffer is fed to the public Engine::deserialize; a panic reproduces the finding.
+// ------------------------------------------------------------------------------------------------- C10
+/// the buffer is fed to the public Engine::deserialize; a panic reproduces the finding
 fn c10_header(v: &Value) -> Value {
     let buf = bytes(&v["buf"]);
     let len = (u(&v["len"]) as usize).min(buf.len());
@@ -36,10 +119,621 @@ fn c10_header(v: &Value) -> Value {
         Err(e) => json!({"reproduced": true, "panic": panic_msg(e), "input": data, "api": "Engine::deserialize"}),
     }
 }
+fn c10_rule_a(v: &Value) -> Value {
+    let m = u(&v["m"]) as u32;
+    let r = catch_unwind(AssertUnwindSafe(|| {
+        let f = mk_filter(m, FilterPart::Empty, None, None);
+        let req = Request::new("https://a/", "", "script").unwrap();
+        let a = matches(&f, &req);
+        // and through the engine-level container
+        let bl = blocker_of(vec![f], false);
+        let _ = bl.check(&req, &ResourceStorage::default());
+        a
+    }));
+    match r {
+        Ok(a) => json!({"reproduced": false, "matches": a, "mask": m}),
+        Err(e) => json!({"reproduced": true, "panic": panic_msg(e), "mask": m, "api": "NetworkMatchable::matches / Blocker::check on a rule value with this mask and no hostname"}),
+    }
+}
 
+// ------------------------------------------------------------------------------------------------- C18
 fn c18_perm(v: &Value) -> Value {
     let (r, f) = (u(&v["required"]) as u8, u(&v["granted"]) as u8);
     let got = PermissionMask::from_bits(r).is_injectable_by(PermissionMask::from_bits(f));
     let want = r & !f == 0;
     json!({"reproduced": got != want, "got": got, "want": want})
+}
+/// the separator scan is private; lifted through a `+js(...)` cosmetic rule whose argument list is the string
+fn c18_sep(v: &Value) -> Value {
+    let s = sub(v, "b", "l");
+    let rule = format!("example.com##+js(x, {})", s);
+    let r = catch_unwind(AssertUnwindSafe(|| {
+        let mut fs = adblock::FilterSet::new(true);
+        let _ = fs.add_filter(&rule, Default::default());
+        let e = Engine::from_filter_set(fs, false);
+        e.url_cosmetic_resources("https://example.com/").injected_script.len()
+    }));
+    match r {
+        Ok(n) => json!({"reproduced": false, "note": "only panics can be lifted through the public API for this kernel", "script_len": n, "rule": rule}),
+        Err(e) => json!({"reproduced": true, "panic": panic_msg(e), "rule": rule}),
+    }
+}
+
+// ------------------------------------------------------------------------------------------------- C01
+fn tok_strings(v: &Value) -> (String, String) {
+    let f = sub(v, "fb", "fl").to_ascii_lowercase();
+    let mut url = String::new();
+    if b(&v["has_pre2"]) {
+        url.push(u(&v["pre2"]) as u8 as char);
+    }
+    if b(&v["has_pre"]) {
+        url.push(u(&v["pre"]) as u8 as char);
+    }
+    url.push_str(&f);
+    if b(&v["has_post"]) {
+        url.push(u(&v["post"]) as u8 as char);
+    }
+    if b(&v["has_post2"]) {
+        url.push(u(&v["post2"]) as u8 as char);
+    }
+    (f, url.to_ascii_lowercase())
+}
+/// rule value with the literal pattern and anchors; request whose URL text is the constructed string.
+/// Reproduced iff the real per-rule matcher accepts and a token the rule can be filed under is not among the
+/// request's tokens; `engine_lost` additionally says whether a one-rule Blocker then misses the request.
+fn c01_tok(v: &Value) -> Value {
+    let (f, url) = tok_strings(v);
+    let (la, ra) = (b(&v["la"]), b(&v["ra"]));
+    let mut mask = NetworkFilterMask::DEFAULT_OPTIONS;
+    if la {
+        mask |= NetworkFilterMask::IS_LEFT_ANCHOR;
+    }
+    if ra {
+        mask |= NetworkFilterMask::IS_RIGHT_ANCHOR;
+    }
+    let nf = mk_filter(mask.bits(), FilterPart::Simple(f.clone()), None, None);
+    let req = mk_request(&url, "x.com", RequestType::Script, false, true, false, None);
+    let m = matches(&nf, &req);
+    let groups = nf.get_tokens();
+    let rt: Vec<u64> = req.get_tokens().clone();
+    let missing: Vec<u64> = groups.iter().flatten().filter(|t| !rt.contains(t)).cloned().collect();
+    let bl = blocker_of(vec![nf], false);
+    let engine = bl.check(&req, &ResourceStorage::default()).matched;
+    // API lift through rule text where the text round-trips
+    let line = format!("{}{}{}", if la { "|" } else { "" }, f, if ra { "|" } else { "" });
+    let lifted = NetworkFilter::parse(&line, false, Default::default()).ok().map(|p| {
+        let same = matches!(&p.filter, FilterPart::Simple(s) if *s == f) && p.mask.contains(NetworkFilterMask::IS_LEFT_ANCHOR) == la && p.mask.contains(NetworkFilterMask::IS_RIGHT_ANCHOR) == ra && p.hostname.is_none();
+        let e = Engine::from_rules([line.clone()], Default::default());
+        json!({"rule_text_roundtrips": same, "matcher": matches(&p, &req), "engine": e.check_network_request(&req).matched})
+    });
+    json!({"reproduced": m && !missing.is_empty(), "rule": line, "url": url, "matcher_accepts": m, "rule_tokens_missing_from_request": missing.len(),
+           "engine_matched": engine, "engine_lost": m && !engine, "lift": lifted})
+}
+fn alnum(c: u8) -> bool {
+    c.is_ascii_alphanumeric() || c == b'%'
+}
+fn c01_l1c(v: &Value) -> Value {
+    let c = u(&v["c"]) as u8;
+    let s: String = [c as char, c as char].iter().collect();
+    let got = !adblock::utils::tokenize(&s).is_empty();
+    json!({"reproduced": got != alnum(c), "byte": c, "tokenizer_treats_as_token_char": got})
+}
+/// bin_lookup is crate-private: lifted through an included-domain list and a one-hash source
+fn c01_bin(v: &Value) -> Value {
+    let a = u64s(&v["a"]);
+    let n = (u(&v["n"]) as usize).min(a.len());
+    let x = u(&v["x"]);
+    if n == 0 {
+        return json!({"reproduced": false, "note": "empty list is not expressible as a domain option"});
+    }
+    let mut nf = mk_filter(NetworkFilterMask::DEFAULT_OPTIONS.bits(), FilterPart::Empty, None, None);
+    nf.opt_domains = Some(a[..n].to_vec());
+    let req = mk_request("https://x.com/", "x.com", RequestType::Script, false, true, false, Some(vec![x]));
+    let got = matches(&nf, &req);
+    let want = a[..n].contains(&x);
+    json!({"reproduced": got != want, "got": got, "want": want})
+}
+fn c01_flags(v: &Value) -> Value {
+    let m = (u(&v["m"]) as u32) & !(u(&v["mask_clear"]) as u32);
+    let nf = mk_filter(m, FilterPart::Simple("ab/cd/ef".into()), None, None);
+    let g = nf.get_tokens();
+    let mask = NetworkFilterMask::from_bits_retain(m);
+    let ra = mask.contains(NetworkFilterMask::IS_RIGHT_ANCHOR);
+    let (http, https) = (mask.contains(NetworkFilterMask::FROM_HTTP), mask.contains(NetworkFilterMask::FROM_HTTPS));
+    let mut want: Vec<u64> = if ra { vec![fast_hash("cd"), fast_hash("ef")] } else { vec![fast_hash("ab"), fast_hash("cd")] };
+    if http && !https {
+        want.push(fast_hash("http"));
+    }
+    if https && !http {
+        want.push(fast_hash("https"));
+    }
+    let ok = g.len() == 1 && g[0] == want;
+    json!({"reproduced": !ok, "mask": m, "groups": g.len(), "descriptive": true})
+}
+fn c01_dom(v: &Value) -> Value {
+    let m = (u(&v["m"]) as u32) & !(u(&v["mask_clear"]) as u32);
+    let d = u(&v["d"]);
+    let s = u64s(&v["s"]);
+    let ns = (u(&v["ns"]) as usize).min(s.len());
+    let has_src = b(&v["has_src"]);
+    let mut nf = mk_filter(m, FilterPart::Empty, None, None);
+    nf.opt_domains = Some(vec![d]);
+    nf.opt_domains_union = Some(d);
+    let src = if has_src { Some(s[..ns].to_vec()) } else { None };
+    let req = mk_request("https://x.com/", "x.com", RequestType::Script, b(&v["http"]), b(&v["https"]), b(&v["tp"]), src.clone());
+    let m_ok = matches(&nf, &req);
+    let g = nf.get_tokens();
+    let filed_under_d = g.len() == 1 && g[0].first() == Some(&d);
+    let probed = src.map(|s| s.contains(&d)).unwrap_or(false);
+    let engine = blocker_of(vec![nf], false).check(&req, &ResourceStorage::default());
+    json!({"reproduced": !filed_under_d || (m_ok && !probed), "matcher_accepts": m_ok, "filed_under_domain": filed_under_d, "domain_hash_probed": probed,
+           "engine_matched": engine.matched || engine.exception.is_some()})
+}
+fn c01_scheme(v: &Value) -> Value {
+    let m = (u(&v["m"]) as u32) & !(u(&v["mask_clear"]) as u32);
+    let sc = u(&v["sc"]);
+    let mask = NetworkFilterMask::from_bits_retain(m);
+    let nf = mk_filter(m, FilterPart::Empty, None, None);
+    let (url, rt) = match sc {
+        0 => ("http://x.com/", RequestType::Script),
+        1 => ("https://x.com/", RequestType::Script),
+        _ => ("ws://x.com/", RequestType::Websocket),
+    };
+    let req = mk_request(url, "x.com", rt, sc == 0, sc == 1, b(&v["tp"]), None);
+    let ok = matches(&nf, &req);
+    let http_only = mask.contains(NetworkFilterMask::FROM_HTTP) && !mask.contains(NetworkFilterMask::FROM_HTTPS);
+    let https_only = mask.contains(NetworkFilterMask::FROM_HTTPS) && !mask.contains(NetworkFilterMask::FROM_HTTP);
+    let bad = ok && ((http_only && sc != 0) || (https_only && sc != 1));
+    // the scheme token the rule is filed under vs the tokens of the request URL
+    let g = nf.get_tokens();
+    let tok = if http_only { Some(fast_hash("http")) } else if https_only { Some(fast_hash("https")) } else { None };
+    let filed = tok.map(|t| g.iter().flatten().any(|x| *x == t)).unwrap_or(false);
+    let probed = tok.map(|t| req.get_tokens().contains(&t)).unwrap_or(true);
+    json!({"reproduced": bad && filed && !probed, "matcher_accepts": ok, "rule_has_scheme_token": filed, "request_probes_it": probed, "url": url,
+           "example": "rule '|http://' vs a ws:// request: matcher accepts, engine files the rule under token 'http'"})
+}
+
+// ------------------------------------------------------------------------------------------------- C02
+fn eq_at(h: &[u8], p: usize, n: &[u8]) -> bool {
+    p + n.len() <= h.len() && &h[p..p + n.len()] == n
+}
+fn ref_anchored(fh: &[u8], h: &[u8], wildcard: bool) -> bool {
+    if fh.is_empty() {
+        return true;
+    }
+    if fh.len() > h.len() {
+        return false;
+    }
+    (0..=h.len() - fh.len()).any(|p| {
+        eq_at(h, p, fh) && {
+            let e = p + fh.len();
+            (p == 0 || fh[0] == b'.' || h[p - 1] == b'.') && (e == h.len() || wildcard || fh[fh.len() - 1] == b'.' || h[e] == b'.')
+        }
+    })
+}
+/// is_anchored_by_hostname is private: a host-anchored rule value with an empty pattern matches iff anchored
+fn c02_anchor(v: &Value) -> Value {
+    let fh = sub(v, "fb", "fl");
+    let h = sub(v, "hb", "hl");
+    let w = b(&v["w"]);
+    let mut mask = NetworkFilterMask::DEFAULT_OPTIONS | NetworkFilterMask::IS_HOSTNAME_ANCHOR;
+    if w {
+        mask |= NetworkFilterMask::IS_HOSTNAME_REGEX;
+    }
+    let nf = mk_filter(mask.bits(), FilterPart::Empty, Some(fh.clone()), None);
+    let url = format!("https://{}/", h);
+    let req = mk_request(&url, &h, RequestType::Script, false, true, false, None);
+    let got = matches(&nf, &req);
+    let want = ref_anchored(fh.as_bytes(), h.as_bytes(), w);
+    // lift through rule text when the host text is a plain hostname
+    let lift = if !w && !fh.is_empty() {
+        let line = format!("||{}", fh);
+        NetworkFilter::parse(&line, false, Default::default()).ok().and_then(|p| Request::new(&url, "", "script").ok().map(|r| json!({"rule": line, "matcher": matches(&p, &r)})))
+    } else {
+        None
+    };
+    json!({"reproduced": got != want, "got": got, "want": want, "filter_host": fh, "host": h, "wildcard": w, "lift": lift})
+}
+fn c02_plain(v: &Value) -> Value {
+    let f = sub(v, "fb", "fl");
+    let url = sub(v, "ub", "ul");
+    let (la, ra, mc) = (b(&v["la"]), b(&v["ra"]), b(&v["mc"]));
+    let mut mask = NetworkFilterMask::DEFAULT_OPTIONS;
+    if la {
+        mask |= NetworkFilterMask::IS_LEFT_ANCHOR;
+    }
+    if ra {
+        mask |= NetworkFilterMask::IS_RIGHT_ANCHOR;
+    }
+    if mc {
+        mask |= NetworkFilterMask::MATCH_CASE;
+    }
+    let nf = mk_filter(mask.bits(), FilterPart::Simple(f.clone()), None, None);
+    let req = mk_request(&url, "", RequestType::Script, false, true, false, None);
+    let got = matches(&nf, &req);
+    let hay = if mc { url.clone() } else { url.to_ascii_lowercase() };
+    let (hb, fb) = (hay.as_bytes(), f.as_bytes());
+    let want = if la && ra { hb == fb } else if la { hb.starts_with(fb) } else if ra { hb.ends_with(fb) } else { (0..=hb.len()).any(|p| eq_at(hb, p, fb)) };
+    json!({"reproduced": got != want, "got": got, "want": want, "pattern": f, "url": url})
+}
+fn c02_host(v: &Value) -> Value {
+    let fh = sub(v, "hb", "hl");
+    let rh = sub(v, "rb", "rl");
+    let f = sub(v, "fb", "fl");
+    let tail = sub(v, "tb", "tl");
+    let (la, ra) = (b(&v["la"]), b(&v["ra"]));
+    let url = format!("s://{}{}", rh, tail);
+    let mut mask = NetworkFilterMask::DEFAULT_OPTIONS | NetworkFilterMask::IS_HOSTNAME_ANCHOR;
+    if la {
+        mask |= NetworkFilterMask::IS_LEFT_ANCHOR;
+    }
+    if ra {
+        mask |= NetworkFilterMask::IS_RIGHT_ANCHOR;
+    }
+    let nf = mk_filter(mask.bits(), FilterPart::Simple(f.clone()), Some(fh.clone()), None);
+    let req = mk_request(&url, &rh, RequestType::Script, false, true, false, None);
+    let got = matches(&nf, &req);
+    let (fhb, rhb, fb, ub) = (fh.as_bytes(), rh.as_bytes(), f.as_bytes(), url.as_bytes());
+    let mut want = false;
+    if !fhb.is_empty() && fhb.len() <= rhb.len() {
+        for p in 0..=rhb.len() - fhb.len() {
+            if eq_at(rhb, p, fhb) {
+                let e = p + fhb.len();
+                if (p == 0 || fhb[0] == b'.' || rhb[p - 1] == b'.') && (e == rhb.len() || fhb[fhb.len() - 1] == b'.' || rhb[e] == b'.') {
+                    let start = 4 + e;
+                    if eq_at(ub, start, fb) && (!ra || start + fb.len() == ub.len()) {
+                        want = true;
+                    }
+                }
+            }
+        }
+    }
+    // the same through a realistic scheme and rule text
+    let url2 = format!("https://{}{}", rh, tail);
+    let line = format!("||{}{}{}", fh, f, if ra { "|" } else { "" });
+    let lift = NetworkFilter::parse(&line, false, Default::default()).ok().and_then(|p| Request::new(&url2, "", "script").ok().map(|r| json!({"rule": line, "url": url2, "matcher": matches(&p, &r)})));
+    json!({"reproduced": got != want, "got": got, "want": want, "filter_host": fh, "remainder": f, "url": url, "lift": lift})
+}
+
+// ------------------------------------------------------------------------------------------------- C03
+fn type_bit(t: u64) -> (RequestType, NetworkFilterMask) {
+    use NetworkFilterMask as M;
+    use RequestType as R;
+    match t {
+        0 => (R::Beacon, M::FROM_PING),
+        1 => (R::Csp, M::UNMATCHED),
+        2 => (R::Document, M::FROM_DOCUMENT),
+        3 => (R::Dtd, M::FROM_OTHER),
+        4 => (R::Fetch, M::FROM_OTHER),
+        5 => (R::Font, M::FROM_FONT),
+        6 => (R::Image, M::FROM_IMAGE),
+        7 => (R::Media, M::FROM_MEDIA),
+        8 => (R::Object, M::FROM_OBJECT),
+        9 => (R::Other, M::FROM_OTHER),
+        10 => (R::Ping, M::FROM_PING),
+        11 => (R::Script, M::FROM_SCRIPT),
+        12 => (R::Stylesheet, M::FROM_STYLESHEET),
+        13 => (R::Subdocument, M::FROM_SUBDOCUMENT),
+        14 => (R::Websocket, M::FROM_WEBSOCKET),
+        15 => (R::Xlst, M::FROM_OTHER),
+        _ => (R::Xmlhttprequest, M::FROM_XMLHTTPREQUEST),
+    }
+}
+fn c03_opts(v: &Value) -> Value {
+    let m = u(&v["m"]) as u32;
+    let mask = NetworkFilterMask::from_bits_retain(m);
+    let (rt, bit) = type_bit(u(&v["t"]));
+    let t = u(&v["t"]);
+    let take = |name: &str, n: &str| -> Vec<u64> {
+        let a = u64s(&v[name]);
+        let k = (u(&v[n]) as usize).min(a.len());
+        a[..k].to_vec()
+    };
+    let (inc, exc, src) = (take("inc", "ni"), take("exc", "ne"), take("src", "ns"));
+    let has_src = b(&v["has_src"]);
+    let (http, https, tp) = (b(&v["http"]), b(&v["https"]), b(&v["tp"]));
+    // strip pattern-kind bits the kernel's check_options call never looked at, so that the pattern side accepts
+    let kind = NetworkFilterMask::IS_REGEX | NetworkFilterMask::IS_HOSTNAME_ANCHOR | NetworkFilterMask::IS_COMPLETE_REGEX | NetworkFilterMask::IS_HOSTNAME_REGEX;
+    let mut nf = mk_filter((mask & !kind).bits(), FilterPart::Empty, None, None);
+    if !inc.is_empty() {
+        nf.opt_domains_union = if b(&v["has_iu"]) { Some(inc.iter().fold(0, |a, x| a | x)) } else { None };
+        nf.opt_domains = Some(inc.clone());
+    }
+    if !exc.is_empty() {
+        nf.opt_not_domains_union = if b(&v["has_eu"]) { Some(exc.iter().fold(0, |a, x| a | x)) } else { None };
+        nf.opt_not_domains = Some(exc.clone());
+    }
+    let req = mk_request("https://x.com/", "x.com", rt, http, https, tp, if has_src { Some(src.clone()) } else { None });
+    let got = matches(&nf, &req);
+    let bad = mask.contains(NetworkFilterMask::BAD_FILTER);
+    let type_ok = if t == 2 { mask.contains(NetworkFilterMask::FROM_DOCUMENT) || mask.contains(NetworkFilterMask::IS_EXCEPTION) } else { mask.contains(bit) };
+    let scheme_ok = (!https || mask.contains(NetworkFilterMask::FROM_HTTPS)) && (!http || mask.contains(NetworkFilterMask::FROM_HTTP));
+    let party_ok = if tp { mask.contains(NetworkFilterMask::THIRD_PARTY) } else { mask.contains(NetworkFilterMask::FIRST_PARTY) };
+    let src_in = |l: &Vec<u64>| has_src && src.iter().any(|s| l.contains(s));
+    let want = !bad && type_ok && scheme_ok && party_ok && (inc.is_empty() || src_in(&inc)) && (exc.is_empty() || !src_in(&exc));
+    json!({"reproduced": got != want, "got": got, "want": want, "mask": m, "request_type": t, "include": inc, "exclude": exc, "source": if has_src { Some(src) } else { None }})
+}
+
+// ------------------------------------------------------------------------------------------------- C04
+fn c04_id(v: &Value, check: &str) -> Value {
+    let bad = NetworkFilterMask::BAD_FILTER;
+    let my = NetworkFilterMask::from_bits_retain(u(&v["my"]) as u32) & !bad;
+    let (fy, hy, fz, hz) = (sub(v, "a", "al"), sub(v, "b", "bl"), sub(v, "c", "cl"), sub(v, "d", "dl"));
+    let (has_hy, has_hz, has_dy, has_dz) = (b(&v["has_hy"]), b(&v["has_hz"]), b(&v["has_dy"]), b(&v["has_dz"]));
+    let (dy, dz) = (u(&v["dy"]), u(&v["dz"]));
+    let mut y = mk_filter(my.bits(), FilterPart::Simple(fy.clone()), if has_hy { Some(hy.clone()) } else { None }, None);
+    let mut z = mk_filter((my | bad).bits(), FilterPart::Simple(fz.clone()), if has_hz { Some(hz.clone()) } else { None }, None);
+    if has_dy {
+        y.opt_domains = Some(vec![dy]);
+    }
+    if has_dz {
+        z.opt_domains = Some(vec![dz]);
+    }
+    let same = fy == fz && has_hy == has_hz && (!has_hy || hy == hz) && has_dy == has_dz && (!has_dy || dy == dz);
+    let ids_eq = z.get_id_without_badfilter() == y.get_id();
+    let repro = if check.contains("same_rule_is_cancelled") {
+        same && !ids_eq
+    } else if check.contains("equal_ids_imply_same_rule") {
+        ids_eq && !same
+    } else if check.contains("mask_is_part_of_id") {
+        let my2 = NetworkFilterMask::from_bits_retain(u(&v["my2"]) as u32) & !bad;
+        let y2 = mk_filter(my2.bits(), FilterPart::Simple(fy.clone()), if has_hy { Some(hy.clone()) } else { None }, None);
+        my2 != my && !has_dy && y2.get_id() == y.get_id()
+    } else {
+        (same && !ids_eq) || (ids_eq && !same)
+    };
+    // engine level: does adding z (a $badfilter) remove y from a Blocker?
+    y.id = y.get_id();
+    z.id = z.get_id();
+    let cancelled = {
+        let bl = blocker_of(vec![y.clone(), z.clone()], false);
+        !bl.filter_exists(&y)
+    };
+    json!({"reproduced": repro, "same_rule": same, "ids_equal": ids_eq, "y": {"filter": fy, "hostname": if has_hy {Some(hy)} else {None}}, "z": {"filter": fz, "hostname": if has_hz {Some(hz)} else {None}},
+           "blocker_drops_y_when_z_badfilter_is_added": cancelled})
+}
+
+// ------------------------------------------------------------------------------------------------- C05
+/// select/fusion are private: lifted through Blocker::new with optimisation on vs off on the two rule values
+fn c05_fuse(v: &Value) -> Value {
+    let m = (u(&v["m"]) as u32) & !(u(&v["mask_clear"]) as u32);
+    let p1 = sub(v, "b1", "l1");
+    let p2 = sub(v, "b2", "l2");
+    let url = sub(v, "ub", "ul");
+    let mkf = |p: &str, empty: bool, tag: bool| mk_filter(m, if empty { FilterPart::Empty } else { FilterPart::Simple(p.to_string()) }, None, if tag { Some("a") } else { None });
+    let f1 = mkf(&p1, b(&v["e1"]), b(&v["t1"]));
+    let mut f2 = mkf(&p2, b(&v["e2"]), b(&v["t2"]));
+    if f2.id == f1.id {
+        f2.id = f1.id.wrapping_add(1);
+    }
+    let rt = if b(&v["rt_script"]) { RequestType::Script } else { RequestType::Document };
+    let req = mk_request(&url, "", rt, false, true, b(&v["tp"]), None);
+    let run = |opt: bool| {
+        let mut bl = blocker_of(vec![f1.clone(), f2.clone()], opt);
+        if b(&v["tag_on"]) {
+            bl.use_tags(&["a"]);
+        }
+        let r = bl.check(&req, &ResourceStorage::default());
+        let csp = bl.get_csp_directives(&req);
+        (r.matched, r.important, r.exception.is_some(), r.redirect, r.rewritten_url, csp)
+    };
+    let (a, o) = (run(false), run(true));
+    json!({"reproduced": a != o, "unoptimised": format!("{:?}", a), "optimised": format!("{:?}", o), "mask": m, "patterns": [p1, p2], "url": url})
+}
+
+// ------------------------------------------------------------------------------------------------- C08
+/// the wire structs are private: the failing field is exercised through Engine::serialize_raw -> deserialize with a
+/// rule text that depends on that field, comparing query answers before and after.
+fn c08_rule(_v: &Value, check: &str) -> Value {
+    let battery: Vec<(&str, &str, &str, &str, Vec<&str>)> = vec![
+        // (field, rule, url, source, tags)
+        ("modifier_option", "*$removeparam=utm", "https://x.com/p?utm=1&a=2", "https://x.com/", vec![]),
+        ("modifier_option_of_redirect", "||x.com/ad.js$redirect=noopjs,script", "https://x.com/ad.js", "https://y.com/", vec![]),
+        ("modifier_option_of_redirect", "||x.com^$csp=script-src 'none'", "https://x.com/", "https://x.com/", vec![]),
+        ("hostname", "||x.com/ad", "https://x.com/ad", "https://y.com/", vec![]),
+        ("hostname", "||x.com/ad", "https://z.com/ad", "https://y.com/", vec![]),
+        ("tag", "adv$tag=t", "https://x.com/adv", "https://y.com/", vec![]),
+        ("tag", "adv$tag=t", "https://x.com/adv", "https://y.com/", vec!["t"]),
+        ("domain", "adv$domain=y.com", "https://x.com/adv", "https://y.com/", vec![]),
+        ("domain", "adv$domain=y.com", "https://x.com/adv", "https://z.com/", vec![]),
+        ("domain", "adv$domain=~y.com", "https://x.com/adv", "https://y.com/", vec![]),
+        ("domain", "adv$domain=~y.com", "https://x.com/adv", "https://z.com/", vec![]),
+        ("mask", "adv$script,third-party", "https://x.com/adv", "https://y.com/", vec![]),
+        ("mask", "@@adv$script", "https://x.com/adv", "https://y.com/", vec![]),
+        ("mask", "adv$important", "https://x.com/adv", "https://y.com/", vec![]),
+        ("pattern", "/adv/banner", "https://x.com/adv/banner", "https://y.com/", vec![]),
+        ("pattern", "/adv/banner", "https://x.com/adv/other", "https://y.com/", vec![]),
+        ("id", "adv", "https://x.com/adv", "https://y.com/", vec![]),
+        ("raw_line", "adv", "https://x.com/adv", "https://y.com/", vec![]),
+    ];
+    let mut diffs = vec![];
+    let mut ran = 0;
+    for (field, rule, url, src, tags) in battery {
+        let relevant = check.contains(field) || (field == "modifier_option_of_redirect" && check.contains("modifier_option")) || (field == "domain" && check.contains("domain"));
+        if !relevant {
+            continue;
+        }
+        ran += 1;
+        let rules: Vec<String> = vec![rule.to_string(), "@@never-matches-anything-xyz".to_string()];
+        let mut e = Engine::from_rules_debug(rules.clone(), Default::default());
+        e.use_tags(&tags);
+        e.use_resources([noop_resource()]);
+        let ser = match e.serialize_raw() {
+            Ok(s) => s,
+            Err(_) => continue,
+        };
+        let mut e2 = Engine::default();
+        e2.use_tags(&tags);
+        e2.use_resources([noop_resource()]);
+        if e2.deserialize(&ser).is_err() {
+            diffs.push(json!({"rule": rule, "error": "deserialize failed"}));
+            continue;
+        }
+        let req = Request::new(url, src, "script").unwrap();
+        let (a, bb) = (e.check_network_request(&req), e2.check_network_request(&req));
+        let doc = Request::new(url, src, "document").unwrap();
+        let (ca, cb) = (e.get_csp_directives(&doc), e2.get_csp_directives(&doc));
+        let fa = (a.matched, a.important, a.exception.is_some(), a.redirect.clone(), a.rewritten_url.clone(), a.filter.clone(), ca);
+        let fb = (bb.matched, bb.important, bb.exception.is_some(), bb.redirect.clone(), bb.rewritten_url.clone(), bb.filter.clone(), cb);
+        if fa != fb {
+            diffs.push(json!({"rule": rule, "url": url, "tags": tags, "before": format!("{:?}", fa), "after": format!("{:?}", fb)}));
+        }
+    }
+    json!({"reproduced": !diffs.is_empty(), "battery_entries_run": ran, "differences": diffs, "api": "Engine::serialize_raw -> Engine::deserialize -> check_network_request / get_csp_directives"})
+}
+
+fn noop_resource() -> adblock::resources::Resource {
+    adblock::resources::Resource {
+        name: "noopjs".into(),
+        aliases: vec![],
+        kind: adblock::resources::ResourceType::Mime(adblock::resources::MimeType::ApplicationJavascript),
+        content: "KCgpID0+IHt9KSgp".into(), // base64 of "(() => {})()"
+        dependencies: vec![],
+        permission: Default::default(),
+    }
+}
+
+// ------------------------------------------------------------------------------------------------- C11
+fn c11_split(v: &Value) -> Value {
+    let mut s = String::new();
+    if b(&v["a"]) {
+        s.push(u(&v["x"]) as u8 as char);
+    }
+    if b(&v["c"]) {
+        match char::from_u32(u(&v["ch"]) as u32) {
+            Some(c) => s.push(c),
+            None => return json!({"reproduced": false, "error": "decoded value is not a Unicode scalar"}),
+        }
+    }
+    if b(&v["b"]) {
+        s.push(u(&v["y"]) as u8 as char);
+    }
+    let line = s.clone();
+    let r = catch_unwind(AssertUnwindSafe(|| {
+        let a = NetworkFilter::parse(&line, true, Default::default()).is_ok();
+        let bb = adblock::lists::parse_filter(&line, true, Default::default()).is_ok();
+        (a, bb)
+    }));
+    match r {
+        Ok(x) => json!({"reproduced": false, "line": s, "parsed": format!("{:?}", x)}),
+        Err(e) => json!({"reproduced": true, "line": s, "panic": panic_msg(e), "api": "NetworkFilter::parse / lists::parse_filter"}),
+    }
+}
+
+// ------------------------------------------------------------------------------------------------- C12
+fn c12_scheme(v: &Value) -> Value {
+    let s = sub(v, "sb", "sl");
+    let raw = match u(&v["ty"]) % 3 {
+        0 => "image",
+        1 => "script",
+        _ => "websocket",
+    };
+    // the private constructor receives url[..first ':'] from Request::preparsed
+    let url = if s.is_empty() { "x".to_string() } else { format!("{}:x", s) };
+    let r = Request::preparsed(&url, "", "", raw, false);
+    let (h, hs, w, ws) = (s == "http", s == "https", s == "ws", s == "wss");
+    let ok = r.is_http == h && r.is_https == (hs || s.is_empty()) && r.is_supported == (s.is_empty() || h || hs || w || ws)
+        && (r.request_type == RequestType::Websocket) == (w || ws || raw == "websocket") && !(r.is_http && r.is_https);
+    json!({"reproduced": !ok, "scheme": s, "type": raw, "is_http": r.is_http, "is_https": r.is_https, "is_supported": r.is_supported, "request_type": format!("{:?}", r.request_type)})
+}
+fn c12_types(v: &Value) -> Value {
+    const T: [(&str, &str); 25] = [
+        ("beacon", "Ping"), ("csp_report", "Csp"), ("document", "Document"), ("main_frame", "Document"), ("font", "Font"), ("image", "Image"), ("imageset", "Image"),
+        ("media", "Media"), ("object", "Object"), ("object_subrequest", "Object"), ("ping", "Ping"), ("script", "Script"), ("stylesheet", "Stylesheet"), ("sub_frame", "Subdocument"),
+        ("subdocument", "Subdocument"), ("websocket", "Websocket"), ("xhr", "Xmlhttprequest"), ("xmlhttprequest", "Xmlhttprequest"), ("other", "Other"), ("speculative", "Other"), ("xslt", "Other"),
+        ("web_manifest", "Other"), ("xbl", "Other"), ("xml_dtd", "Other"), ("no-such-type", "Other"),
+    ];
+    let i = (u(&v["i"]) as usize).min(24);
+    let r = Request::preparsed("https://a/", "a", "", T[i].0, false);
+    let got = format!("{:?}", r.request_type);
+    json!({"reproduced": got != T[i].1, "spelling": T[i].0, "got": got, "want": T[i].1})
+}
+fn c12_srchash(v: &Value) -> Value {
+    let h = sub(v, "hb", "hl");
+    let r = Request::preparsed("a:", "", &h, "image", false);
+    let want: Option<Vec<u64>> = if h.is_empty() {
+        None
+    } else {
+        let mut w = vec![fast_hash(&h)];
+        for (i, c) in h.char_indices() {
+            if c == '.' && i + 1 < h.len() {
+                w.push(fast_hash(&h[i + 1..]));
+            }
+        }
+        Some(w)
+    };
+    json!({"reproduced": r.source_hostname_hashes != want, "host": h, "got_len": r.source_hostname_hashes.as_ref().map(|x| x.len()), "want_len": want.as_ref().map(|x| x.len())})
+}
+
+// ------------------------------------------------------------------------------------------------- C16
+/// The label-hash functions are crate-private and take the registrable-domain split from the resolver. Lift:
+/// one hide rule per label suffix of the host (and per entity form), queried through
+/// Engine::url_cosmetic_resources — possible only when the real public-suffix resolver yields the split the
+/// counterexample uses.
+fn c16_labels(v: &Value, entity: bool) -> Value {
+    let h = sub(v, "hb", "hl");
+    let ds = u(&v["ds"]) as usize;
+    let hostc = |c: u8| c.is_ascii_lowercase() || c.is_ascii_digit() || c == b'.' || c == b'-';
+    if !h.bytes().all(hostc) || h.contains("..") || h.starts_with('.') || h.ends_with('.') || h.starts_with('-') {
+        return json!({"reproduced": false, "unliftable": true, "note": "host is not a valid hostname; cannot be queried through a URL", "host": h});
+    }
+    let url = format!("https://{}/", h);
+    let parsed = match adblock::url_parser::parse_url(&url) {
+        Some(p) => p,
+        None => return json!({"reproduced": false, "unliftable": true, "note": "URL does not parse", "host": h}),
+    };
+    let real_ds = parsed.hostname().len() - parsed.domain().len();
+    if parsed.hostname() != h || real_ds != ds {
+        return json!({"reproduced": false, "unliftable": true, "note": "the real public-suffix resolver splits this host differently from the counterexample", "host": h, "cex_split": ds, "real_split": real_ds});
+    }
+    let hb = h.as_bytes();
+    let mut rules = vec![];
+    let mut expected = vec![];
+    let domain = &h[ds..];
+    let fd = domain.find('.').map(|i| ds + i);
+    for p in 0..h.len() {
+        if p == 0 || hb[p - 1] == b'.' {
+            if !entity {
+                let sel = format!(".k{}", p);
+                rules.push(format!("{}##{}", &h[p..], sel));
+                if p <= ds {
+                    expected.push(sel);
+                }
+            } else if let Some(fd) = fd {
+                if p < fd {
+                    let sel = format!(".e{}", p);
+                    rules.push(format!("{}.*##{}", &h[p..fd], sel));
+                    expected.push(sel);
+                }
+            }
+        }
+    }
+    let e = Engine::from_rules(rules.clone(), Default::default());
+    let res = e.url_cosmetic_resources(&url);
+    let mut got: Vec<String> = res.hide_selectors.into_iter().collect();
+    got.sort();
+    expected.sort();
+    json!({"reproduced": got != expected, "host": h, "domain": domain, "rules": rules, "got": got, "expected": expected})
+}
+fn c16_generic(v: &Value) -> Value {
+    // CosmeticFilter's fields are public: build the value and call the public method
+    use adblock::filters::cosmetic::{CosmeticFilter, CosmeticFilterAction, CosmeticFilterMask, CosmeticFilterOperator};
+    let (e, h, ne, nh, act) = (b(&v["e"]), b(&v["h"]), b(&v["ne"]), b(&v["nh"]), b(&v["act"]));
+    let mbits = u(&v["mbits"]) as u8;
+    let f = CosmeticFilter {
+        entities: if e { Some(vec![1]) } else { None },
+        hostnames: if h { Some(vec![2]) } else { None },
+        mask: CosmeticFilterMask::from_bits_retain(mbits),
+        not_entities: if ne { Some(vec![3]) } else { None },
+        not_hostnames: if nh { Some(vec![4]) } else { None },
+        raw_line: None,
+        selector: vec![CosmeticFilterOperator::CssSelector("a".into())],
+        action: if act { Some(CosmeticFilterAction::Remove) } else { None },
+        permission: Default::default(),
+    };
+    let g = f.hidden_generic_rule();
+    let script = f.mask.contains(CosmeticFilterMask::SCRIPT_INJECT);
+    let want = !e && !h && (ne || nh) && !act && !script;
+    let ok = g.is_some() == want && f.has_hostname_constraint() == (e || h || ne || nh) && g.as_ref().map(|g| !g.has_hostname_constraint() && g.mask.bits() == mbits && g.action.is_none()).unwrap_or(true);
+    json!({"reproduced": !ok, "twin": g.is_some(), "want_twin": want})
 }
